@@ -275,3 +275,50 @@ func VH_C18_number_text() {
 	}
 	sdb.VerifReach("end")
 }
+
+// A value obtained from Scan stays unchanged when the same destination variable
+// is scanned into again (collecting rows through one variable) and when that
+// later result is modified; the later row is not changed either.
+//verif:bounds two rows of one value each over the 5 storage classes (text/blob of 0..2 free bytes), both scanned into the same *[]byte variable (and into the same *string); the destination may also start out as a caller-supplied buffer of 0..2 bytes
+func VH_C18_rescan() {
+	row1 := Row{vhStored(sdb.VerifChoice(5))}
+	row2 := Row{vhStored(sdb.VerifChoice(5))}
+	var b []byte
+	var s string
+	pre := sdb.VerifChoice(4)
+	var mine []byte
+	if pre > 0 {
+		// the caller's own buffer in the destination: Scan may replace the
+		// variable's value but must not write through it
+		mine = make([]byte, pre-1, 4)
+		for k := range mine {
+			mine[k] = 0x5a
+		}
+		b = mine
+	}
+	err := row1.Scan(&b, &s)
+	if err != nil {
+		sdb.VerifReach("end")
+		return
+	}
+	for k := range mine {
+		sdb.VerifAssert(mine[k] == 0x5a, "Scan does not write through the destination's previous slice")
+	}
+	keep := b
+	snap := string(keep)
+	err = row2.Scan(&b, &s)
+	if err != nil {
+		sdb.VerifReach("end")
+		return
+	}
+	sdb.VerifAssert(string(keep) == snap, "value from an earlier Scan unchanged by a later Scan into the same variable")
+	// modifying the later result changes neither the earlier one nor the row
+	if v, ok := row2[0].([]byte); ok && len(b) > 0 && len(b) == len(v) {
+		orig := v[0]
+		b[0] ^= 0xff
+		sdb.VerifAssert(v[0] == orig, "scanned []byte is an independent copy of the row")
+		sdb.VerifAssert(string(keep) == snap, "scanned []byte values are independent of each other")
+	}
+	sdb.VerifReach("scanned")
+	sdb.VerifReach("end")
+}
